@@ -15,7 +15,7 @@ import ast
 from ..core import AnalysisError, norm, loc, walk_no_nested, attr_chain, call_name, kwarg
 from ..schema import containment_schema
 from ..flags import check_flag_scope
-from ..normalize import clone, inline, local_env, expand, canon, ctext, conjuncts, branch_values, merge_outcomes, Unknown, _enclosing
+from ..normalize import value_under, clone, inline, local_env, expand, canon, ctext, conjuncts, branch_values, merge_outcomes, Unknown, _enclosing
 from .. import flow
 from . import c12
 
@@ -108,6 +108,8 @@ def run(prog, rep):
     ud = arm.methods.get('_update_delegations_on_node')
     if ga is None or ud is None:
         raise AnalysisError('generate_adms / _update_delegations_on_node vanished')
+    # helpers split off generate_adms are read as part of it (the rewrite helper itself and the catalogue stay calls)
+    ga = inline(prog, arm, ga, exclude=('_update_delegations_on_node', 'catalog_delegations'), depth=4)
 
     # only aliases (locals naming an attribute / an element of a container) are expanded, not computed values
     genv = {k: v for k, v in local_env(ga).items() if isinstance(v, (ast.Name, ast.Attribute, ast.Subscript))}
@@ -392,11 +394,50 @@ def run(prog, rep):
     if pairing != [('real_adm_id', ('real_adm_id is not None',)), ('self.graph_id', ('real_adm_id is None',))]:
         rep.violation('R6', loc(adm.module, rw), 'ABCADMPropertyGraph.rewrite_delegations', f'new key from {vals}',
                       'the new key must be the given real ADM id, or this graph\'s id when none is given')
-    props_loop = [n for n in ast.walk(rw) if isinstance(n, ast.For) and isinstance(n.iter, (ast.List, ast.Tuple))]
-    pl = {attr_chain(e)[-1] for e in props_loop[0].iter.elts} if props_loop else set()
-    rep.instance('R6', f'rewrite_delegations: properties {sorted(pl)}')
-    if pl != {'PROP_LABEL_DELEGATIONS', 'PROP_CAPACITY_DELEGATIONS'}:
-        rep.violation('R6', loc(adm.module, rw), 'ABCADMPropertyGraph.rewrite_delegations', f'properties {sorted(pl)}', 'both delegation properties must be re-keyed')
+    # the loop over the delegation properties: its range must fold to {LabelDelegations, CapacityDelegations}, and each
+    # property must be decoded as its own delegation type (list + conditional expression, or a property -> type table)
+    foldr = lambda e_: prog.const_eval(e_, adm.module, adm)
+    want_pairs = {'LabelDelegations': 'LABEL', 'CapacityDelegations': 'CAPACITY'}
+    got_pairs = {}
+    decode = [c for c in ast.walk(rw) if isinstance(c, ast.Call) and call_name(c) == 'from_json' and 'Delegations' in ast.unparse(c.func)]
+    renv = local_env(rw)
+    for l in [n for n in ast.walk(rw) if isinstance(n, ast.For)]:
+        it = l.iter
+        items = None
+        try:
+            if isinstance(it, ast.Call) and isinstance(it.func, ast.Attribute) and it.func.attr in ('items', 'keys') and not it.args:
+                tbl = foldr(it.func.value)
+                if isinstance(tbl, dict):
+                    items = [(k_, v_) for k_, v_ in tbl.items()] if it.func.attr == 'items' else [(k_, None) for k_ in tbl]
+            else:
+                seq = foldr(it)
+                if isinstance(seq, dict):
+                    items = [(k_, None) for k_ in seq]
+                elif isinstance(seq, (list, tuple)):
+                    items = [(k_, None) for k_ in seq]
+        except Exception:
+            items = None
+        if not items or not all(isinstance(k_, str) for k_, _ in items) or not any(any(x is d for x in ast.walk(l)) for d in decode):
+            continue
+        tg = l.target
+        for k_, v_ in items:
+            bind = {}
+            if isinstance(tg, ast.Tuple) and len(tg.elts) == 2 and v_ is not None:
+                bind[ctext(tg.elts[0])] = k_
+                bind[ctext(tg.elts[1])] = v_
+            else:
+                bind[ctext(tg)] = k_
+            for d in decode:
+                at = kwarg(d, 'atype') or (d.args[1] if len(d.args) > 1 else None)
+                try:
+                    tv = value_under(at, bind, foldr, renv, rw) if at is not None else None
+                except Unknown:
+                    tv = '?'
+                got_pairs[k_] = getattr(tv, 'name', str(tv))
+    rep.instance('R6', f'rewrite_delegations: properties and the type each is decoded as {got_pairs}')
+    if got_pairs != want_pairs:
+        rep.violation('R6', loc(adm.module, rw), 'ABCADMPropertyGraph.rewrite_delegations', f'properties {sorted(got_pairs.items())}',
+                      'both delegation properties must be re-keyed, each decoded as its own delegation type')
     wb = [c for c in ast.walk(rw) if isinstance(c, ast.Call) and call_name(c) == 'update_node_properties']
     if not wb:
         rep.violation('R6', loc(adm.module, rw), 'ABCADMPropertyGraph.rewrite_delegations', 'no write back', 're-keyed delegations are never written back')
